@@ -316,7 +316,9 @@ class TimeLimit(object):
     def __enter__(self):
         import signal
         self.old = signal.signal(signal.SIGALRM, self._handler)
-        signal.setitimer(signal.ITIMER_REAL, self.seconds)
+        # the timer keeps firing every half second after the limit: an Expired raised inside a garbage collector
+        # callback or a __del__ is swallowed by the interpreter ("Exception ignored in ...") and must come again
+        signal.setitimer(signal.ITIMER_REAL, self.seconds, 0.5)
         return self
 
     def __exit__(self, *a):
